@@ -28,7 +28,8 @@ RULE = ('Client / AsyncClient on the real engine.io client object, connected '
         'Non-trivial: equal ids outstanding on two namespaces, or an ACK '
         'repeated after the callback fired, or both directions in one '
         'history.'
-        ' Also generated: the answer to something else that is still outstanding (an earlier call() that timed out, an emit with a callback) arrives while a call() waits.')
+        ' Also generated: the answer to something else that is still outstanding (an earlier call() that timed out, an emit with a callback) arrives while a call() waits.'
+        ' Frames whose payload is not a list (a string, an object, nothing, an empty list) invoke nothing, are not acknowledged and leave an outstanding callback outstanding.')
 ASSUMPTIONS = [
     'the scripted server only sends on namespaces it has accepted',
     'call() time-outs: pumping wait primitive (threaded) / virtual time '
